@@ -367,14 +367,38 @@ def oracle_unchanged_on_error(script, obs, classes=None):
         prev = cur
     return None
 
+STRUCTURAL_OPS = {0, 1, 2, 3, 4, 5, 6, 7, 8, 10, 11, 12, 13, 14, 30, 31, 32}
+
+def oracle_locked_rejects(script, obs):
+    """C07 read off the implementation: on a locked world every structure-changing call (Shrink included)
+    panics and leaves entities, components, values, relations and the lock state as they were."""
+    prev = None
+    for k, (op, st) in enumerate(zip(script, obs)):
+        if st["err"] == -1:
+            return None
+        cur = (tuple(st["handles"]), st["used"], st["locked"])
+        if prev is not None and prev[2] == 1 and op[0] in STRUCTURAL_OPS:
+            if st["err"] != 1:
+                return k, "%s went through on a locked world" % OP_NAMES.get(op[0], op[0])
+            if cur != prev:
+                return k, "%s was rejected on a locked world but changed it" % OP_NAMES.get(op[0], op[0])
+        prev = cur
+    return None
+
 def oracle_shrink_invisible(script, obs):
     """C15: Shrink leaves the API view unchanged; afterwards len <= cap for every table."""
     prev = None
     for k, (op, st) in enumerate(zip(script, obs)):
         cur = (tuple(st["handles"]), st["used"], st["locked"])
         if op[0] == 14 and prev is not None:
+            if st["err"] == 1 and prev[2] == 1:
+                # rejected on a locked world (since the repair "Shrink panics on a locked world"): no effect
+                if cur != prev:
+                    return k, "Shrink was rejected on a locked world but changed the world"
+                prev = cur
+                continue
             if st["err"] != 0:
-                return k, "Shrink panicked"
+                return k, "Shrink panicked on an unlocked world"
             if cur != prev:
                 return k, "Shrink changed entities, components, values or relations"
             t = parse_dump_tables(st["dump"]) if st["dump"] else None
@@ -507,7 +531,7 @@ PROPS = {
     "C06": dict(streams=[("batch", 180)], proj=proj_batch, theorems=["Properties/C06.v"],
                 oracles=[], key_ops={3, 12, 30, 31, 32}),
     "C07": dict(streams=[("lock", 150)], proj=proj_lock, theorems=["Properties/C07.v"],
-                oracles=[], key_ops={19, 20, 21}),
+                oracles=[oracle_locked_rejects], key_ops={19, 20, 21}),
     "C08": dict(streams=[("observers", 180)], proj=proj_observers, theorems=["Properties/C08.v"],
                 oracles=[], key_ops={26, 27, 28}),
     "C09": dict(streams=[("observers", 180)], proj=proj_callbacks, theorems=["Properties/C09.v"],
@@ -523,7 +547,7 @@ PROPS = {
     "C14": dict(streams=[("batch", 60)], proj=proj_all_api, theorems=["Properties/C14.v"], oracles=[oracle_go_checks],
                 key_ops={29, 30, 31, 32}, special="typed"),
     "C15": dict(streams=[("shrink", 180)], proj=proj_all_api, theorems=["Properties/C15.v"],
-                oracles=[oracle_shrink_invisible], key_ops={14}, special="shrinktwin"),
+                oracles=[oracle_shrink_invisible, oracle_locked_rejects], key_ops={14}, special="shrinktwin"),
     "C16": dict(streams=[("reset", 150)], proj=proj_all_api, theorems=["Properties/C16.v"],
                 oracles=[oracle_reset_empty], key_ops={13}, special="resettwin"),
     "C17": dict(streams=[("store", 40)], proj=proj_handles, theorems=["Properties/C17.v"], oracles=[], key_ops={0, 11},
